@@ -642,7 +642,16 @@ namespace c14
                     c.log("s%d=V{%s} ", k, ints(a).c_str());
                     if (a.size() > N)
                         excess("ctor_initlist_gt_N");
-                    with_initlist<T>(a, [&](const std::initializer_list<T> &il) { new (at) V(il); });
+                    with_initlist<T>(a, [&](const std::initializer_list<T> &il) {
+                        new (at) V(il);
+                        // the list is taken by const reference and may be used again: its elements keep their values
+                        size_t i = 0;
+                        for (const T &e : il)
+                        {
+                            VP_CHECK(E::get(e) == a[i], sig2("source_changed", "ctor_initlist"), "after V(list) element %zu of the list reads %d, it held %d", i, E::get(e), a[i]);
+                            i++;
+                        }
+                    });
                     sl[k].ref = a;
                 }
                 break;
@@ -856,6 +865,12 @@ namespace c14
             case 2:
             {
                 size_t n = (size_t)s.range(0, 2 * N);
+                if (n == 2 * N && N > 1)
+                {
+                    // far beyond the capacity: a size computed by subtraction that went below zero, SIZE_MAX as "as much as fits"
+                    static const size_t far[] = {SIZE_MAX, SIZE_MAX / 2 + 1, SIZE_MAX - 1, (size_t)1 << 32, SIZE_MAX / 2};
+                    n = far[(ref.size() + (size_t)k) % 5];
+                }
                 c.log("s%d.resize(%zu) ", k, n);
                 if (guarded(E::tracked && n < ref.size(), K_RESIZE))
                     break;
